@@ -1198,7 +1198,7 @@ int main(int argc, char** argv) {
                     L *= 2, M *= 2;   // unreduced ratio
                 }
                 long Ssum = 0;
-                const int nhm = (int)rng.range(2, 3 * std::max(L, M) + 2);
+                const int nhm = (int)rng.range(2, (rng.coin() ? 3 : 8) * std::max(L, M) + 2);   // also histories longer than a frame
                 auto h = sym_taps(rng, nhm, &Ssum);
                 static const char* names[] = {"decim", "interp", "rate", "resampler"};
                 facs.emplace_back(names[kind], f_multi(kind, L, M, h, Ssum));
